@@ -3,5 +3,8 @@ EXTENDS PMC
 \* two page frames per GPU, FrameChunks chunks each
 Frames2 == [g \in GPUs |-> {0, 8}]
 Frames3 == [g \in GPUs |-> {0, 8, 16}]
+Pages1 == [g \in GPUs |-> {0}]        \* one page per GPU, the other frames are free
+Pages2 == [g \in GPUs |-> {0, 8}]
+PagesCtrl == [g \in GPUs |-> IF g = 1 THEN {} ELSE {0, 8, 16}]   \* GPU 1 only receives pages
 \* history variables do not influence behaviour but the properties read them: no VIEW
 =============================================================================
